@@ -146,7 +146,7 @@ def check_predicate(idx: Index, rep: Report) -> None:
                     r.fail(inst, Finding("C13.R1", f.fq, f"missing-conjunct:{key}", f"the conjunct `{key}` is missing from the predicate ({why}); found conjuncts: {[c[:50] for c in conjs]}", f.loc))
         pending.clear()
 
-    EXTRA_KNOWN = [r"all\(\(.*\)\)"]
+    EXTRA_KNOWN = [r"all\(\(.*\)\)", r"True"]
 
     f = idx.func(DCE, "is_trivially_dead")
     op = f.node.args.args[0].arg
